@@ -697,12 +697,35 @@ def spec_species(labels, sref):
     return labels.index(sref) if sref in labels else None
 
 
+class Coord:
+    """a position given as an object with x, y, z attributes (the documented Coord-like form)"""
+    def __init__(self, x, y, z):
+        self.x, self.y, self.z = x, y, z
+
+    def __repr__(self):
+        return "Coord(%d, %d, %d)" % (self.x, self.y, self.z)
+
+
+def pos_value(pos):
+    """wire / case form of a position -> the Python value handed to the real code: int | tuple | Coord"""
+    if isinstance(pos, dict):
+        return Coord(*pos["obj"])
+    return tuple(pos) if isinstance(pos, (list, tuple)) else pos
+
+
+def pos_coords(pos):
+    """the coordinate triple a tuple / object position denotes (None for a linear index)"""
+    if isinstance(pos, dict):
+        return tuple(pos["obj"])
+    return tuple(pos) if isinstance(pos, (list, tuple)) else None
+
+
 def access(kind, shape, labels, sref, pos, accessor, periodic=(), reuse=None):
     """run one accessor call on a fresh system; returns the observation.
     reuse = {"resolve": label, "new_labels": [...]}: first resolve a species by label once, then replace the network's
     species list through its public setter (the stored arrays keep their old layout), then make the call"""
     rds, state0, chem0, size = make_system(kind, shape, labels, periodic=periodic)
-    p = tuple(pos) if isinstance(pos, (list, tuple)) else pos
+    p = pos_value(pos)
     out = {}
     if reuse is not None:
         from strengths.rdnetwork import Species
@@ -756,7 +779,8 @@ def check_access(ctx, kind, shape, labels, sref, pos, accessor, periodic=(), reu
     built_labels = labels
     if reuse is not None:
         labels = reuse["new_labels"]          # the species list at the time of the call
-    p = tuple(pos) if isinstance(pos, (list, tuple)) else pos
+    is_obj = isinstance(pos, dict)
+    p = pos_coords(pos) if pos_coords(pos) is not None else pos          # triple (tuple or object form) or linear index
     size = shape[0] * shape[1] * shape[2] if kind == "grid" else shape
     cell = spec_cell(kind, shape, p)
     if accessor == "get_cell_coordinates" and isinstance(p, tuple):
@@ -765,15 +789,16 @@ def check_access(ctx, kind, shape, labels, sref, pos, accessor, periodic=(), reu
     s = spec_species(labels, sref) if needs_species else 0
     valid = cell is not None and s is not None
     case = {"kind": "access", "space": kind, "shape": list(shape) if kind == "grid" else shape, "labels": built_labels, "species": sref,
-            "pos": list(p) if isinstance(p, tuple) else p, "accessor": accessor, "periodic": list(periodic)}
+            "pos": {"obj": list(p)} if is_obj else list(p) if isinstance(p, tuple) else p, "accessor": accessor, "periodic": list(periodic)}
     if reuse is not None:
         case["reuse"] = reuse
     if accessor == "is_within_bounds":
         if got["result"] != "ok" or got.get("value") != (cell is not None):
-            report(ctx, "position:is_within_bounds:%s" % ("coords" if isinstance(p, tuple) else "linear"),
+            report(ctx, "position:is_within_bounds:%s" % ("object" if is_obj else "coords" if isinstance(p, tuple) else "linear"),
                           "is_within_bounds(%r) = %r on a %s %r" % (p, got.get("value", got.get("exc")), kind, shape), case, impl=got, expected=(cell is not None))
         return got, valid, case
-    form = "coords" if isinstance(p, tuple) else "linear"
+    form = "object" if is_obj else "coords" if isinstance(p, tuple) else "linear"
+    shown = pos_value(pos) if is_obj else p
     if not valid:
         what = "unknown species" if (cell is not None and s is None) else "position outside the space"
         key = ("unknown-species:%s" % accessor) if (cell is not None and s is None) else ("position:%s:%s:%s" % (kind, form, accessor))
@@ -781,7 +806,7 @@ def check_access(ctx, kind, shape, labels, sref, pos, accessor, periodic=(), reu
             key = "unknown-species:after-species-replaced:%s" % accessor
         if got["result"] == "ok" or got["state_changed"] or got["chem_changed"]:
             report(ctx, key, "%s(%r, %r) on a %s %r with %d species: %s, yet it %s" % (
-                accessor, sref, p, kind, shape, len(labels), what,
+                accessor, sref, shown, kind, shape, len(labels), what,
                 ("returned %r" % (got.get("value"),)) if got["result"] == "ok" else "changed the stored arrays"), case, impl=got, expected="exception, arrays untouched")
         return got, valid, case
     # valid call: exactly the named entry
@@ -807,14 +832,14 @@ def check_access(ctx, kind, shape, labels, sref, pos, accessor, periodic=(), reu
         if got["state_changed"] != want_state or got["chem_changed"] != want_chem:
             ok = False
     if not ok:
-        report(ctx, ("entry:after-species-replaced:%s" % accessor) if reuse is not None else "entry:%s:%s:%s" % (kind, form, accessor), "%s(%r, %r) on a %s %r does not address entry %d only" % (accessor, sref, p, kind, shape, idx),
+        report(ctx, ("entry:after-species-replaced:%s" % accessor) if reuse is not None else "entry:%s:%s:%s" % (kind, form, accessor), "%s(%r, %r) on a %s %r does not address entry %d only" % (accessor, sref, shown, kind, shape, idx),
                       case, impl=got, expected={"entry": idx, "value": exp})
     return got, valid, case
 
 
 def model_access_op(kind, shape, labels, sref, pos, accessor, state0):
     space = {"grid": {"w": shape[0], "h": shape[1], "d": shape[2]}} if kind == "grid" else {"graph": shape}
-    p = {"xyz": list(pos)} if isinstance(pos, (tuple, list)) else {"p": pos}
+    p = {"obj": list(pos["obj"])} if isinstance(pos, dict) else {"xyz": list(pos)} if isinstance(pos, (tuple, list)) else {"p": pos}
     sp = {"idx": sref} if isinstance(sref, int) else {"label": sref}
     if accessor in ("get_state", "get_chemostat", "get_state_index", "set_chemostat"):
         return {"op": "validate", "kind": "state_index", "labels": labels, "space": space, "species": sp, "pos": p}
@@ -1264,6 +1289,8 @@ def positional_sweep(ctx):
                     for z in range(-2, d + 2):
                         if thorough or rng.random() < 0.35:
                             one("grid", shape, labels, sref, (x, y, z), acc)
+                        if thorough or rng.random() < 0.25:
+                            one("grid", shape, labels, sref, {"obj": [x, y, z]}, acc)
         per = rng.choice([(), ("x",), ("x", "y", "z")])
         for acc in SPACE_ACCESSORS + ["get_cell_coordinates", "is_within_bounds"]:
             if not thorough and rng.random() < 0.5:
@@ -1276,6 +1303,25 @@ def positional_sweep(ctx):
                         for z in range(-2, d + 2):
                             if thorough or rng.random() < 0.25:
                                 one("grid", shape, ["A", "B"], 0, (x, y, z), acc, per)
+                            if thorough or rng.random() < 0.2:
+                                one("grid", shape, ["A", "B"], 0, {"obj": [x, y, z]}, acc, per)
+    # one axis outside (below 0 / at or beyond the size) while the other two are in range: every axis, every accessor
+    # and setter, as a tuple and as an object with x, y, z attributes
+    for shape in shapes:
+        dims = list(shape)
+        for axis in range(3):
+            bad_values = [-1, -2, dims[axis], dims[axis] + 1]
+            for bad in (bad_values if thorough else rng.sample(bad_values, 2)):
+                xyz = [rng.randrange(dims[0]), rng.randrange(dims[1]), rng.randrange(dims[2])]
+                xyz[axis] = bad
+                labels = rng.choice(label_sets)
+                sref = rng.choice(labels + list(range(len(labels))))
+                for acc in SPECIES_ACCESSORS + SPACE_ACCESSORS + ["is_within_bounds"]:
+                    one("grid", shape, labels, sref, tuple(xyz), acc)
+                    one("grid", shape, labels, sref, {"obj": list(xyz)}, acc)
+    for nn in range(1, 4):
+        for acc in SPECIES_ACCESSORS + SPACE_ACCESSORS:
+            one("graph", nn, ["A", "B"], "A", {"obj": [0, 0, 0]}, acc)       # a graph node is never an object / a triple
     for nn in range(1, 7):
         for labels in label_sets:
             srefs = list(range(-1, len(labels) + 1)) + labels + ["Z"]
@@ -1323,7 +1369,7 @@ def replay(ctx, rec):
             def violation(self, key, what, case, impl=None, expected=None):
                 self.v.append([key, what])
         c = _C()
-        pos = tuple(case["pos"]) if isinstance(case["pos"], list) else case["pos"]
+        pos = case["pos"] if isinstance(case["pos"], dict) else tuple(case["pos"]) if isinstance(case["pos"], list) else case["pos"]
         shape = tuple(case["shape"]) if isinstance(case["shape"], list) else case["shape"]
         got, valid, _ = check_access(c, case["space"], shape, case["labels"], case["species"], pos, case["accessor"], tuple(case.get("periodic", ())),
                                      case.get("reuse"))
